@@ -445,9 +445,11 @@ theorem dac_validate_sound (row : DatRow) (a : DAC) (dc : DC) (hsh : PyRes Bytes
 section V2
 open SpsdkVerif.DatV2
 
-/-- the certificate head as the current source packs / unpacks it: byte widths (C06's generated layout), argument order of the
-    `pack` call, what follows the head in the signed data and in the export, the unpack targets of `parse` by the attribute they
-    feed, the inverted-permission check; and — obtained by running the wrapper class on stub certificates — that the constructor keeps
+/-- the certificate as the current source packs / unpacks it: byte widths (C06's generated layout); obtained BY VALUE from a
+    sandboxed `AhabCertificate` run on distinctive values: what `get_signature_data()` and `export()` write where, which attribute of
+    `parse(export())` each position ends up in, that the inverted-permission byte is checked (no source text is compared any more: a
+    behaviour-preserving re-spelling of the three methods regenerates the same tables);
+    and — obtained by running the wrapper class on stub certificates — that the constructor keeps
     the stored SoC class, the three properties read / write words 0 / 1 / 2 of the permission data and creation asks for `socc ‖ socu ‖ 0` -/
 theorem gen_cert_layout :
     AhabConsts.certificateLayout.intWidths = [1, 2, 1, 2, 1, 1, 1, 1, 2] ∧
@@ -455,14 +457,13 @@ theorem gen_cert_layout :
     AhabConsts.signatureLayout.intWidths = [1, 2, 1, 4] ∧ AhabConsts.signatureLayout.size = 8 ∧
     AhabConsts.certificateTag = 175 ∧ AhabConsts.certificateVersion = 2 ∧ AhabConsts.signatureTag = 216 ∧
     AhabConsts.signatureVersion = 0 ∧ AhabConsts.srkRecordTag = 225 ∧
-    DatConsts.certPackArgs = ["self.version", "self.length", "self.tag", "self.signature_offset", "~self._permissions & 255",
-      "self._permissions", "extend_block(self.permission_data, self.PERMISSION_DATA_SIZE, padding=RESERVED)", "self.fuse_version",
-      "RESERVED", "RESERVED", "extend_block(self._uuid or b'', self.UUID_SIZE, padding=RESERVED)"] ∧
-    DatConsts.certSignedTail.take 2 = ["self.public_key_0.export()", "self.public_key_0.srk_data.export()"] ∧
-    DatConsts.certExportTail.take 1 = ["self.signature_0.export()"] ∧
-    DatConsts.certParseTargets = ["_", "length", "_", "signature_offset", "local", "permissions", "permissions_data",
-      "fuse_version", "_", "_", "uuid"] ∧
-    DatConsts.certInvertedCheck = ["«local» != ~«permissions» & 255"] ∧
+    DatConsts.certSignFields = [(.u8, .version), (.u16, .length), (.u8, .tag), (.u16, .sigOffset), (.u8, .invPerm), (.u8, .perm),
+      (.bytes 12, .permData), (.u8, .fuse), (.u8, .reserved), (.u16, .reserved), (.bytes 16, .uuid), (.raw, .keyRecord), (.raw, .keyData)] ∧
+    DatConsts.certExportFields = DatConsts.certSignFields ++ [(.raw, .sig0)] ∧
+    DatConsts.certParseFields = [(.u8, .dropped), (.u16, .length), (.u8, .dropped), (.u16, .sigOffset), (.u8, .dropped), (.u8, .perm),
+      (.bytes 12, .permData), (.u8, .fuse), (.u8, .dropped), (.u16, .dropped), (.bytes 16, .uuid), (.raw, .keyRecord), (.raw, .keyData),
+      (.raw, .sig0)] ∧
+    DatConsts.certInvChecked = true ∧
     DatConsts.certPermDataSize = 12 ∧ DatConsts.certUuidSize = 16 ∧ DatConsts.certPermDebug = 2 ∧
     DatConsts.v2CtorKeepsSocc = true ∧ DatConsts.v2CtorZeroesSocc = false ∧ DatConsts.v2PermPropsOk = true ∧
     DatConsts.v2CreatePermOk = true := by
@@ -686,6 +687,23 @@ theorem dac_fields_export_is_parse :
     argsOf DatConsts.dacExport = argsOf DatConsts.dacParseLayout ∧ (argsOf DatConsts.dacExport).Nodup ∧
     argsOf DatConsts.dacExport = [.major, .minor, .socc, .uuid, .revocation, .rkthHash, .socPinned, .socDefault, .ccVu, .challenge] ∧
     DatConsts.dacParseLayout.getLast? = some (.bytes (.fixed 32), .challenge) := order_dac
+
+/-- **dar_v2_payload_binds_challenge** (EdgeLock v2 response, payload of the AHAB signed message; the container around it is
+    C06's subject and not modelled): `MessageDat.export_payload()` and `parse_payload()` use the same two fields in the same
+    order (tables probed from the current class), the model's payload is that table interpreted field by field, parsing gives
+    the 32-byte challenge and the 16-bit beacon back, and the payload determines both — a response payload made for one
+    challenge is not the payload of another. -/
+theorem dar_v2_payload_binds_challenge :
+    (DatConsts.datMsgExport = [(.bytes (.fixed 32), .dacChallenge), (.u16, .authBeacon)] ∧
+      DatConsts.datMsgParse = DatConsts.datMsgExport ∧ DatConsts.datMsgPayloadLen = 34) ∧
+    (∀ ch b p, datPayload ch b = .ok p → p = DatConsts.datMsgExport.flatMap (datFieldBytes ch b)) ∧
+    (∀ ch b, ch.length = 32 → b < 65536 →
+      ∃ p, datPayload ch b = .ok p ∧ p.length = DatConsts.datMsgPayloadLen ∧ ∀ t, datPayloadParse (p ++ t) = (ch, b)) ∧
+    (∀ c₁ c₂ b₁ b₂ p, c₁.length = 32 → c₂.length = 32 → datPayload c₁ b₁ = .ok p → datPayload c₂ b₂ = .ok p → c₁ = c₂ ∧ b₁ = b₂) :=
+  ⟨order_datmsg, datPayload_follows_table, datPayload_roundtrip,
+   fun c₁ c₂ b₁ b₂ p h₁ h₂ e₁ e₂ => datPayload_inj c₁ c₂ b₁ b₂ h₁ h₂ p e₁ e₂⟩
+
+example : (datPayload (List.replicate 32 7) 513).toOption = some (List.replicate 32 7 ++ [1, 2]) := by decide +kernel
 
 end Order
 
